@@ -61,7 +61,7 @@ def axesEntry (t : Tree) (p : Path) (entry : String) : Option String :=
   | "parent" => some (showOptPath (parent p))
   | "ancestors" => some (showPaths (ancestors p))
   | "children" => some (showPaths (children t p))
-  | "reverse_children" => some (showPaths (reverseChildren t (4 * t.size + 8) p))
+  | "reverse_children" => some (showPaths (reverseChildren t p))
   | "descendants" => some (showPaths (descendants t p))
   | "all_descendants" => some (showPaths (allDescendants t p))
   | "following_siblings" => some (showPaths (followingSiblings t p))
